@@ -134,6 +134,30 @@ Proof.
   apply (gate_generic model_py gate_accepts plugin schema_valid main_effects docs fs order_current gate_sound_current H).
 Qed.
 Print Assumptions C18_gate.
+
+(* process histories: the command run several times in one process, the files written so far threaded through.  In the MODEL a call
+   depends on the documents handed to THAT call only - the translated main has no state (lib/x_main.py rejects what would give it one:
+   a decorator such as functools.lru_cache on a helper it follows, module-level rebinding), and the history stream of the check
+   (lib/c18_history.py) ties exactly this to the real process.  So an invalid call anywhere in a history fails and leaves the files
+   as the calls before it left them, whatever ran before and whatever runs after. *)
+Fixpoint run_history (plugin : lv -> list string -> status * list string) (calls : list (list json)) (fs : list string) : list status * list string :=
+  match calls with
+  | [] => ([], fs)
+  | docs :: r => match main_model plugin docs fs with
+                 | (s, fs1) => match run_history plugin r fs1 with (ss, fs2) => (s :: ss, fs2) end end
+  end.
+Theorem C18_gate_history : forall plugin before docs after fs,
+  (exists d, In d docs /\ schema_valid d = false) ->
+  run_history plugin (before ++ docs :: after) fs =
+    match run_history plugin before fs with
+    | (s1, fs1) => match run_history plugin after fs1 with (s2, fs2) => (s1 ++ SError :: s2, fs2) end end.
+Proof.
+  intros plugin before docs after fs H. revert fs. induction before as [|c r IH]; intros fs; cbn [run_history app].
+  - rewrite (C18_gate plugin docs fs H). destruct (run_history plugin after fs) as [s2 fs2]. reflexivity.
+  - destruct (main_model plugin c fs) as [s fs1]. rewrite IH. destruct (run_history plugin r fs1) as [s1 fs1'].
+    destruct (run_history plugin after fs1') as [s2 fs2]. reflexivity.
+Qed.
+Print Assumptions C18_gate_history.
 (* END UNLESS-KNOWN gate *)
 
 (* non-vacuity: a small document that is covered, loads, reads back, merges and compares *)
